@@ -202,8 +202,9 @@ CHECKS = {
                   "accepted by the message monitor) via a coupling invariant; every-schedule reachability MReach; "
                   "transmit lock cannot be taken during an ACK wait; virtual-time differential against real "
                   "ZBOSS.request tasks with a reference-NCP monitor",
-        text="Kernel-checked for every event history: the whole wire log is accepted by the message monitor - the "
-             "fragments of a message go out in order 0..n-1, the last data frame before fragment f>0 of a request is "
+        text="Kernel-checked for every event history on one connection (no connect() on the same object in between; "
+             "histories with reconnects are in the model and tied by the differential and a contiguity monitor): the whole "
+             "wire log is accepted by the message monitor - the fragments of a message go out in order 0..n-1, the last data frame before fragment f>0 of a request is "
              "fragment f-1 of the same request (C11_contiguous), an abandoned message is never continued; at most one "
              "request is inside its transmission and at most one awaits an ACK, in every state the event loop can be in "
              "under every order of task micro-steps (C11_any_schedule); no task step writes a data frame while an ACK "
@@ -216,7 +217,8 @@ CHECKS = {
              "reference-NCP monitor (well-formed writes, contiguous fragments, reassembled bytes == request).",
         note=Q + "; byte-level well-formedness of each write is C05/C09; the request machine (C11_trace) is abstract in the "
              "frame contents, the wire theorem (C11_ncp_sees_request) is about the bytes of one message: the two meet at "
-             "'no data frame of another message in between'",
+             "'no data frame of another message in between'; the trace theorem is stated per connection (gen = 0), the other "
+             "invariants (at most one request in transmission, C11_any_schedule's first clause) for every history",
         design="7/C11, 12.1"),
     "C13": dict(
         technique="Lean 4 proof: no-residue invariant (every registered listener belongs to a running request) preserved "
@@ -264,7 +266,10 @@ CHECKS = {
              "expiry while a request runs, so after at most two expiries per request every request has ended "
              "(C20_loss_requests_end_with_their_timers, C20_timer_expiry_makes_progress). The event loop of the model comes to "
              "rest after every event of every history (C20_loop_comes_to_rest: a measure drops with every task run and the "
-             "fuel given to the run covers it), so none of these theorems carries a quiescence hypothesis.",
+             "fuel given to the run covers it), so none of these theorems carries a quiescence hypothesis. The model includes "
+             "connect() on the same object (a new protocol object: numbering 0, an ACK wakes only senders of the current "
+             "connection): the invariants are proved for histories with any number of reconnects, 'shut stays shut' until "
+             "connect (C20_connect_reopens, C20_ack_on_new_connection).",
         note=Q + "; that the model's loop is at rest after every event of every history is itself a theorem "
              "(C20_loop_comes_to_rest)",
         design="7/C20, 12.1"),
